@@ -27,13 +27,13 @@ type c05Pair struct {
 	init *c05Init
 	p    *lorawan.PHYPayload
 	// model
-	fopts      []byte
-	foptsCmds  bool // library holds FOpts as a command list
-	frm        []byte
-	frmCmds    bool
-	mic        [4]byte
-	fcnt       uint32 // the counter the model's frame currently carries
-	receiver   bool
+	fopts       []byte
+	foptsCmds   bool // library holds FOpts as a command list
+	frm         []byte
+	frmCmds     bool
+	mic         [4]byte
+	fcnt        uint32 // the counter the model's frame currently carries
+	receiver    bool
 	unspecified bool
 	// bookkeeping for the "complete path" outcome
 	validatedOK bool
